@@ -532,6 +532,13 @@ func derivedFrom(v, obj ssa.Value, depth int) bool {
 		if x.Op == token.MUL {
 			return derivedFrom(x.X, obj, depth+1)
 		}
+	case *ssa.Alloc:
+		// a local cell (a result spilled because the function defers): whatever is stored into it
+		for _, ref := range core.Referrers(x) {
+			if st, ok := ref.(*ssa.Store); ok && st.Addr == ssa.Value(x) && derivedFrom(st.Val, obj, depth+1) {
+				return true
+			}
+		}
 	case *ssa.FieldAddr:
 		return derivedFrom(x.X, obj, depth+1)
 	case *ssa.Field:
